@@ -153,7 +153,13 @@ def run(ctx: Ctx) -> None:
                     by_path: dict[str, list[str]] = {}
                     for c in entries:
                         by_path.setdefault(raw[id(c)], []).append(spell(c))
-                    tables = "".join(f'[[tool.refurb.amend]]\npath = {json.dumps(pth)}\nignore = {json.dumps(cs)}\n' for pth, cs in by_path.items())
+                    if rng.random() < 0.5:
+                        # one table per classifier: several tables then name the same directory (also under different spellings of it)
+                        rows_ = [(raw[id(c)] + rng.choice(["", "", "/", "/."]) if raw[id(c)] not in ("", ".") else raw[id(c)], [spell(c)]) for c in entries]
+                        ctx.count("amend-tables-sharing-a-path", sum(1 for i_, r_ in enumerate(rows_) if any(os.path.normpath(r_[0] or ".") == os.path.normpath(q_[0] or ".") for q_ in rows_[:i_])))
+                    else:
+                        rows_ = list(by_path.items())
+                    tables = "".join(f'[[tool.refurb.amend]]\npath = {json.dumps(pth)}\nignore = {json.dumps(cs)}\n' for pth, cs in rows_)
                     Path(cfg_abs).write_text(f'[tool.refurb]\nignore = ["FURB999"]\n{tables}')
                     try:
                         st = load_settings(["x.py", "--config-file", config_file])
